@@ -15,8 +15,23 @@ package z80
 
 //@ func (cpu *CPU) executeOne()
 //@   layer P
-//@   requires cpu.Memory != nil
+//@   requires vsGhostMem(cpu.Memory)
 //@   ensures [diff] vsExecDiff(cpu, old(cpu), g, old(g)) == 0
+//@   modifies cpu.States, cpu.HALT, g.Mem, g.Rd, g.Wr, g.PIn, g.POut, g.Retn, g.Reti
+
+// ---------------------------------------------------------------- Step and interrupt acceptance (cpu.go)
+
+//@ func (cpu *CPU) Step()
+//@   layer P
+//@   requires vsGhostMem(cpu.Memory)
+//@   ensures [diff] vsStepDiff(cpu, old(cpu), g, old(g)) == 0
+//@   modifies cpu.States, cpu.HALT, cpu.Interrupt, g.Mem, g.Rd, g.Wr, g.PIn, g.POut, g.Retn, g.Reti
+
+//@ func (cpu *CPU) processInterrupt() (accepted bool)
+//@   layer P
+//@   requires vsGhostMem(cpu.Memory)
+//@   requires cpu.Interrupt != nil
+//@   ensures [diff] vsIntDiff(cpu, old(cpu), g, old(g), accepted) == 0
 //@   modifies cpu.States, cpu.HALT, g.Mem, g.Rd, g.Wr, g.PIn, g.POut, g.Retn, g.Reti
 
 // ---------------------------------------------------------------- pure helpers (cpu.go, z80.go)
@@ -57,7 +72,7 @@ package z80
 // ---------------------------------------------------------------- bus helpers (cpu.go)
 
 //@ func (cpu *CPU) fetch() (v uint8)
-//@   requires cpu.Memory != nil
+//@   requires vsGhostMem(cpu.Memory)
 //@   ensures v == old(g.Mem)[old(cpu.PC)]
 //@   ensures cpu.PC == old(cpu.PC)+1
 //@   ensures g.Rd == vsBump64k(old(g.Rd), old(cpu.PC))
@@ -65,7 +80,7 @@ package z80
 
 //@ func (cpu *CPU) fetchM1() (c uint8)
 //@   props C14
-//@   requires cpu.Memory != nil
+//@   requires vsGhostMem(cpu.Memory)
 //@   ensures c == old(g.Mem)[old(cpu.PC)]
 //@   ensures cpu.PC == old(cpu.PC)+1
 //@   ensures cpu.IR.Lo == vsIncR(old(cpu.IR.Lo))
@@ -73,7 +88,7 @@ package z80
 //@   modifies cpu.PC, cpu.IR.Lo, g.Rd
 
 //@ func (cpu *CPU) fetch2() (l, h uint8)
-//@   requires cpu.Memory != nil
+//@   requires vsGhostMem(cpu.Memory)
 //@   ensures l == old(g.Mem)[old(cpu.PC)]
 //@   ensures h == old(g.Mem)[old(cpu.PC)+1]
 //@   ensures cpu.PC == old(cpu.PC)+2
@@ -81,20 +96,20 @@ package z80
 //@   modifies cpu.PC, g.Rd
 
 //@ func (cpu *CPU) fetch16() (v uint16)
-//@   requires cpu.Memory != nil
+//@   requires vsGhostMem(cpu.Memory)
 //@   ensures v == uint16(old(g.Mem)[old(cpu.PC)+1])<<8|uint16(old(g.Mem)[old(cpu.PC)])
 //@   ensures cpu.PC == old(cpu.PC)+2
 //@   ensures g.Rd == vsBump64k(vsBump64k(old(g.Rd), old(cpu.PC)), old(cpu.PC)+1)
 //@   modifies cpu.PC, g.Rd
 
 //@ func (cpu *CPU) readU16(addr uint16) (v uint16)
-//@   requires cpu.Memory != nil
+//@   requires vsGhostMem(cpu.Memory)
 //@   ensures v == uint16(old(g.Mem)[addr+1])<<8|uint16(old(g.Mem)[addr])
 //@   ensures g.Rd == vsBump64k(vsBump64k(old(g.Rd), addr), addr+1)
 //@   modifies g.Rd
 
 //@ func (cpu *CPU) writeU16(addr uint16, v uint16)
-//@   requires cpu.Memory != nil
+//@   requires vsGhostMem(cpu.Memory)
 //@   ensures g.Mem == vsStore(vsStore(old(g.Mem), addr, uint8(v)), addr+1, uint8(v>>8))
 //@   ensures g.Wr == vsBumpWr(vsBumpWr(old(g.Wr), addr, uint8(v)), addr+1, uint8(v>>8))
 //@   modifies g.Mem, g.Wr
